@@ -70,10 +70,25 @@ def run(ctx, extra_profiles=()):
         files += st["files"]
     mm, tot = validate_files(ctx, "SignalTrace", TRACE_CFG, files)
     ctx.note("validated %d events (%d judged, %d traces cut at an unspecified step), %d mismatches" % (tot["lines"], tot["judged"], tot["unspec"], len(mm)))
-    return finish(ctx, mc, stats, mm, tot)
+    extra_viol, extra_cov = 0, {}
+    if ctx.prop == "C15":      # Put of a buffer with a different total capacity: decided with Pool.tla
+        import pool_family
+        st = ctx.record("poolforeign")
+        pm, ptot = pool_family.pool_mismatches(ctx, [st])
+        ctx.note("pool: %d foreign Puts recorded, %d events validated, %d mismatches" % (st["extra"].get("foreign_puts", 0), ptot["lines"], len(pm)))
+        for n, m in enumerate(pm[:20]):
+            path = save_replay(ctx, 1000 + n, pool_family.trace_prefix_pool(m["file"], m["line"]))
+            print("VIOLATION property=C15 replay=%s" % path)
+            print("  pool: at line %d: op=%s class=%s expected=%s observed=%s" % (m["line"], m["op"], m["cls"], m["exp"], m["got"]))
+            extra_viol += 1
+        extra_cov = dict(pool_foreign_puts=st["extra"].get("foreign_puts", 0), pool_events_validated=ptot["lines"])
+        tot["lines"] += ptot["lines"]
+        tot["judged"] += ptot["judged"]
+    rc = finish(ctx, mc, stats, mm, tot, extra_cov=extra_cov, extra_viol=extra_viol)
+    return 1 if (rc or extra_viol) else 0
 
 
-def finish(ctx, mc, stats, mm, tot, level="model_checking", extra_cov=None):
+def finish(ctx, mc, stats, mm, tot, level="model_checking", extra_cov=None, extra_viol=0):
     own, foreign = [], []
     for m in mm:
         pre = trace_prefix(m["file"], m["line"])
@@ -119,5 +134,5 @@ def finish(ctx, mc, stats, mm, tot, level="model_checking", extra_cov=None):
     write_evidence(ctx, level, cov,
                    ["TLC/SANY and the CommunityModules Json reader are trusted", "the recorder (harness/*.go) executes and projects only; it contains no expectation",
                     "model bounds: " + MC_CONSTS[ctx.tier].replace("\n", ";"),
-                    "amd64, the Go toolchain on PATH"], viol)
+                    "amd64, the Go toolchain on PATH"], viol + extra_viol)
     return 1 if viol else 0
